@@ -1,11 +1,125 @@
-/- Line-protocol driver for C11 (stub until the property's models exist). -/
-import PyIpmi.Base.Proto
-open PyIpmi.Proto
+/-
+  Line-protocol driver for C11: the reference SDR device (Spec/SdrDevice.lean) and the model of the
+  SDR retrieval code (Model/SdrXfer.lean) with the constants generated from the working tree.
 
-def handleC11 (line : String) : String :=
+    cfg <repo> <dev> <limit> <strict 0|1> <cancels> <transients> <res0 repo> <res0 dev>   set the device  -> ok
+         repo, dev ::= - | <hex>,<hex>,…       cancels ::= - | n,n,…     transients ::= - | idx:code,…
+    replay <frames>          the device's answers to a request trace, from its initial state
+         frames ::= - | <netfn>:<cmd>:<hex>,…                       -> <hex>,<hex>,…
+    get  <store r|d> <v> <id> <res|->      get_repository_sdr / get_device_sdr on the initial device
+    list <store r|d> <v> <fuel>            get_*_sdr_list / *_entries
+         v ::= <fallThrough 0|1><repoRenew r|d><devRenew r|d>  (e.g. 0rd = as repaired)  |  src (as read from the source)
+         -> <outcome> | <trace>        outcome ::= ok <next> <hex> | ok <hex>,<hex>,… | <error tag>
+                                       trace ::= - | <netfn>:<cmd>:<hex>><hex>,…
+    consts                   generated constants: hdrLen dataRetry maxReqLen reqLenDec cantReturn lastId
+                             ccOk chunkRetry renew retry1 retry2, then the variant as read from the source
+-/
+import PyIpmi.Base.Proto
+import PyIpmi.Model.SdrXfer
+import PyIpmi.Spec.SdrDevice
+import PyIpmi.Gen.Loops11
+open PyIpmi PyIpmi.Proto PyIpmi.Model.Retry PyIpmi.Model.SdrXfer PyIpmi.Spec.Sdr
+
+structure St where
+  cfg : Cfg
+  init : State
+
+def K11 : Consts := PyIpmi.Gen.Loops11.consts
+def XK11 : XConsts := PyIpmi.Gen.Loops11.xconsts
+
+def parseRecs (s : String) : Option (List (List Nat)) :=
+  if s == "-" then some [] else (s.splitOn ",").mapM ofHex
+
+def parsePair (s : String) : Option (Nat × Nat) :=
+  match s.splitOn ":" with
+  | [a, b] => do
+    let x ← a.toNat?
+    let y ← b.toNat?
+    pure (x, y)
+  | _ => none
+
+def parsePairs (s : String) : Option (List (Nat × Nat)) :=
+  if s == "-" then some [] else (s.splitOn ",").mapM parsePair
+
+def parseStore (s : String) : Option Store :=
+  if s == "r" then some .repo else if s == "d" then some .dev else none
+
+def parseVariant (s : String) : Option Variant :=
+  if s == "src" then some PyIpmi.Gen.Loops11.variantRead else
+  match s.toList with
+  | [f, a, b] =>
+    match parseStore (String.ofList [a]), parseStore (String.ofList [b]) with
+    | some ra, some rb => if f == '0' then some ⟨false, ra, rb⟩ else if f == '1' then some ⟨true, ra, rb⟩ else none
+    | _, _ => none
+  | _ => none
+
+def showStore : Store → String
+  | .repo => "r"
+  | .dev => "d"
+
+def parseFrame (s : String) : Option (Nat × Nat × List Nat) :=
+  match s.splitOn ":" with
+  | [a, b, h] => do
+    let nf ← a.toNat?
+    let c ← b.toNat?
+    let d ← ofHex h
+    pure (nf, c, d)
+  | _ => none
+
+def parseFrames (s : String) : Option (List (Nat × Nat × List Nat)) :=
+  if s == "-" then some [] else (s.splitOn ",").mapM parseFrame
+
+def showXchg (e : Req × Rsp) : String :=
+  let (nf, c, d) := e.1.frame
+  s!"{nf}:{c}:{toHex d}>{toHex e.2.toBytes}"
+
+def showTrace (t : List (Req × Rsp)) : String :=
+  if t.isEmpty then "-" else ",".intercalate (t.map showXchg)
+
+def hexList (l : List (List Nat)) : String :=
+  if l.isEmpty then "-" else ",".intercalate (l.map toHex)
+
+def finish {α : Type} (r : (State × List (Req × Rsp)) × Outcome α) (f : α → String) : String :=
+  let o := match r.2 with
+    | .ok a => "ok " ++ f a
+    | e => e.tag
+  s!"{o} | {showTrace r.1.2}"
+
+def replayFrames (cfg : Cfg) (st : State) (fs : List (Nat × Nat × List Nat)) : List (List Nat) :=
+  (fs.foldl (fun (acc : State × List (List Nat)) f =>
+    let r := handleBytes cfg acc.1 f.1 f.2.1 f.2.2
+    (r.1, r.2 :: acc.2)) (st, [])).2.reverse
+
+def handle (s : St) (line : String) : St × String :=
   match tokens line with
-  | ["ping"] => "pong"
-  | _ => "bad-op"
+  | ["ping"] => (s, "pong")
+  | ["consts"] =>
+    let v := PyIpmi.Gen.Loops11.variantRead
+    (s, " ".intercalate ([XK11.hdrLen, XK11.dataRetry, XK11.maxReqLen, XK11.reqLenDec, XK11.cantReturn, XK11.lastId,
+      K11.ccOk, K11.chunkRetryDefault, K11.chunkRenew, K11.chunkRetry1, K11.chunkRetry2].map toString)
+      ++ s!" {if v.fallThrough then 1 else 0}{showStore v.repoRenew}{showStore v.devRenew}")
+  | ["cfg", repo, dev, limit, strict, cancels, transients, r0, d0] =>
+    match parseRecs repo, parseRecs dev, limit.toNat?, strict.toNat?, parseNatList cancels, parsePairs transients,
+      r0.toNat?, d0.toNat? with
+    | some rp, some dv, some l, some sv, some cs, some ts, some a, some b =>
+      (⟨⟨rp, dv, l, sv != 0, cs, ts⟩, State.init a b⟩, "ok")
+    | _, _, _, _, _, _, _, _ => (s, "bad-op")
+  | ["replay", frames] =>
+    match parseFrames frames with
+    | some fs => (s, hexList (replayFrames s.cfg s.init fs))
+    | none => (s, "bad-op")
+  | ["get", store, v, id, res] =>
+    match parseStore store, parseVariant v, id.toNat?, (if res == "-" then some none else res.toNat?.map some) with
+    | some st, some v, some id, some res? =>
+      (s, finish (getSdrData K11 XK11 v (traced (step s.cfg)) st (s.init, []) id res?)
+        (fun (p : Nat × List Nat) => s!"{p.1} {toHex p.2}"))
+    | _, _, _, _ => (s, "bad-op")
+  | ["list", store, v, fuel] =>
+    match parseStore store, parseVariant v, fuel.toNat? with
+    | some st, some v, some fuel =>
+      (s, finish (sdrList K11 XK11 v (traced (step s.cfg)) st fuel (s.init, [])) hexList)
+    | _, _, _ => (s, "bad-op")
+  | _ => (s, "bad-op")
 
 def main : IO Unit := do
-  loop (← IO.getStdin) (← IO.getStdout) handleC11
+  loopS (← IO.getStdin) (← IO.getStdout) handle ⟨⟨[], [], 255, false, [], []⟩, State.init 0 0⟩
